@@ -431,13 +431,16 @@ EXTRA11 = {
     'C19': ' Round 15: the searches behind the unquoted dump start at 0 or at the first quote (C19.R3).',
     'C20': ' Round 15: instructions are executed from a local copy of the stored vector (C20.R33).',
 }
+EXTRA12 = {
+    'C17': ' Round 16: a priority that may be non-zero is stored only where the poll order of the same message is anchored (C17.R10).',
+}
 
 
 def main():
     checks = []
     for pid in sorted(CHECKS):
         c = dict(CHECKS[pid])
-        c['text'] = c['text'] + EXTRA.get(pid, '') + EXTRA2.get(pid, '') + EXTRA3.get(pid, '') + EXTRA4.get(pid, '') + EXTRA5.get(pid, '') + EXTRA6.get(pid, '') + EXTRA7.get(pid, '') + EXTRA8.get(pid, '') + EXTRA9.get(pid, '') + EXTRA10.get(pid, '') + EXTRA11.get(pid, '')
+        c['text'] = c['text'] + EXTRA.get(pid, '') + EXTRA2.get(pid, '') + EXTRA3.get(pid, '') + EXTRA4.get(pid, '') + EXTRA5.get(pid, '') + EXTRA6.get(pid, '') + EXTRA7.get(pid, '') + EXTRA8.get(pid, '') + EXTRA9.get(pid, '') + EXTRA10.get(pid, '') + EXTRA11.get(pid, '') + EXTRA12.get(pid, '')
         if pid in ('C01', 'C02', 'C03', 'C05', 'C06', 'C07', 'C08', 'C09', 'C10', 'C11', 'C13', 'C14', 'C15', 'C19', 'C20'):
             c['technique'] += '; finite evaluation of inline accessors / conditions from the typed AST on enumerated model states'
         checks.append({
